@@ -601,6 +601,10 @@ where
     #[cfg_attr(feature = "tracing", tracing::instrument(name = "Session::event_loop", skip(self), fields(outgoing_channel = %self.session.outgoing_channel().0)))]
     async fn event_loop(mut self, tx: oneshot::Sender<Result<(), Error>>) {
         let mut outcome = Ok(());
+        // Once the link-to-session channel is closed and drained, `recv()` returns `None`
+        // immediately; polling it again would turn this loop into a busy loop until the
+        // remote End arrives
+        let mut link_frames_open = true;
         loop {
             let result = tokio::select! {
                 incoming = self.incoming.recv() => {
@@ -665,7 +669,7 @@ where
                         }
                     }
                 },
-                frame = self.outgoing_link_frames.recv() => {
+                frame = self.outgoing_link_frames.recv(), if link_frames_open => {
                     match frame {
                         Some(frame) => self.on_outgoing_link_frames(frame).await,
                         None => {
@@ -673,6 +677,7 @@ where
                             //
                             // Upon ending, all link-to-session channels will be closed
                             // first while the session is still waitint for remote end frame.
+                            link_frames_open = false;
                             Ok(Running::Continue)
                         }
                     }
